@@ -11,9 +11,9 @@
 (* implementation-shaped value Fin(MergeAll(Collect per segment)) of      *)
 (* Aggs.tla must equal the declarative value Ref over all documents:      *)
 (*                                                                         *)
-(*   IdealMergeExact   mode "ideal" (thresholds / limits on merged counts) *)
+(*   IdealMergeExact   mode {} (thresholds / limits on the merged counts)  *)
 (*   AgreeSound        the agreement relation accepts the reference value  *)
-(*   AsBuiltExact      mode "asbuilt" (per-segment thresholds: S12a)       *)
+(*   AsBuiltExact      mode {"S12a"} (per-segment thresholds)              *)
 (*                     - must be REFUTED (CheckAsBuilt = TRUE)             *)
 (***************************************************************************)
 EXTENDS Aggs
@@ -74,17 +74,17 @@ Spec == Init /\ [][Next]_vars
 M == {Doc(i, types[i], segs[i]) : i \in DOMAIN types}
 Parts == PartsOf(M, 3)
 
-IdealMergeExact == phase = 2 => \A a \in Specs : Shaped(D0, Parts, a, "ideal") = Ref(D0, M, a)
+IdealMergeExact == phase = 2 => \A a \in Specs : Shaped(D0, Parts, a, {}) = Ref(D0, M, a)
 
 BucketOnly == {a \in Specs : a.t \in {"terms", "rare", "hist"} /\ a.subs = <<>>}
 AgreeSound ==
   phase = 2 => \A a \in BucketOnly : \A strict \in BOOLEAN : Agree(D0, Ref(D0, M, a), Exact(Ref(D0, M, a)), strict)
 
 AsBuiltExact ==
-  (phase = 2 /\ CheckAsBuilt) => \A a \in Specs : Exact(Shaped(D0, Parts, a, "asbuilt")) = Exact(Ref(D0, M, a))
+  (phase = 2 /\ CheckAsBuilt) => \A a \in Specs : Exact(Shaped(D0, Parts, a, {"S12a"})) = Exact(Ref(D0, M, a))
 
 (* with one segment the as-built form is exact: the defect needs at least two segments *)
 AsBuiltExactOneSegment ==
   (phase = 2 /\ \A i \in DOMAIN segs : segs[i] = 0) =>
-     \A a \in Specs : Exact(Shaped(D0, Parts, a, "asbuilt")) = Exact(Ref(D0, M, a))
+     \A a \in Specs : Exact(Shaped(D0, Parts, a, {"S12a"})) = Exact(Ref(D0, M, a))
 =============================================================================
